@@ -13,10 +13,15 @@ METHODS = [b"GET", b"POST", b"PUT", b"HEAD", b"OPTIONS", b"DELETE", b"M-SEARCH"]
 TARGETS = [b"/", b"/a/b", b"/a%20b?x=1&y=%zz", b"*", b"http://example.com:80/p?q#f", b"//x/y?z",
            b"/%41%2f%2F/", b"h:1", b"/a#frag", b"/?", b"https://h/", b"/\xe9", b"//x\xe9/y", b"//a#b?c"]
 VERSIONS = [b" HTTP/1.1"] * 6 + [b" HTTP/1.0"] * 2 + [b"", b" HTTP/2.0", b" HTTP/0.9"]
-CONNECTION = [None, None, None, b"close", b"keep-alive", b"Close", b"Keep-Alive", b"upgrade", b"close, x", b"x,close", b"x , CLOSE ", b"closed", b"keep-alive, close"]
+CONNECTION = [None, None, None, b"close", b"keep-alive", b"Close", b"Keep-Alive", b"upgrade", b"close, x", b"x,close", b"x , CLOSE ", b"closed", b"keep-alive, close",
+              b"close\x85", b"x,\xa0close", b"close\xa0,x", b"\x0bclose"]
 TE_VARIANTS = [b"chunked", b"chunked", b"chunked", b"Chunked", b" chunked ", b"chunked,", b",chunked",
                b"gzip, chunked", b"chunked, chunked", b"identity", b"chunked\t", b"\x85chunked", b"gzip",
-               b"chunked;q=1", b"", b",", b"chunked, ", b" ", b"chunked,\t,", b"chunked, \x0b"]
+               b"chunked;q=1", b"", b",", b"chunked, ", b" ", b"chunked,\t,", b"chunked, \x0b",
+               # bytes that str.strip() / re's \s treat as white space but RFC 9110 does not,
+               # next to the list separator and at either end of a member
+               b"chunked\x85,", b",\xa0chunked", b"chunked\xa0, ", b"gzip\x85, chunked", b"chunked ,\x85",
+               b"\x1fchunked", b"chunked\x1c", b"chunked,\x85chunked", b"\xa0", b"\x85,chunked\x0c"]
 CL_MUTANTS = [b"+5", b"0x5", b"5 ", b" 5", b"5,5", b"5, 5", b"5\t", b"-1", b"1_0", b"", b"5a", b"\xb2",
               b"05", b"00000000000005", b"5\x0b", b"5\x00", b"5.0", b"5e0", b" ", b"4294967301", b"1" * 30]
 SIZE_MUTANTS = [b"5 ", b" 5", b"0x5", b"+5", b"5\n", b"G", b"", b"5;", b"5;a", b"5;a=", b'5;a="b', b"5 ;a=b",
